@@ -738,6 +738,33 @@ fn handle(req: &Value) -> Value {
                 .collect();
             json!({"results": out})
         }
+        "lexvia" => {
+            // the token sequence of a text that was reached by one change: lex(old text), then lexer::update with [a, e, new] (byte offsets)
+            let items = req["items"].as_array().cloned().unwrap_or_default();
+            let out: Vec<Value> = items
+                .iter()
+                .map(|it| {
+                    let old = it[0].as_str().unwrap_or("").to_string();
+                    let change = TextChange {
+                        range: (it[1].as_u64().unwrap_or(0) as usize)..(it[2].as_u64().unwrap_or(0) as usize),
+                        text: it[3].as_str().unwrap_or("").to_string(),
+                    };
+                    if change.range.start > change.range.end || change.range.end > old.len() || !old.is_char_boundary(change.range.start) || !old.is_char_boundary(change.range.end) {
+                        return json!({"harness_error": "bad change"});
+                    }
+                    let mut new = old.clone();
+                    new.replace_range(change.range.clone(), &change.text);
+                    match catch(|| {
+                        let toks = lexer::lex(&old);
+                        lexer::update(&new, toks, &change).0
+                    }) {
+                        Ok(t) => tokens_json(&t),
+                        Err(p) => json!({"panic": p}),
+                    }
+                })
+                .collect();
+            json!({"results": out})
+        }
         "parse" => {
             // parser::parse(lexer::lex(text)) only: the syntax tree without table or semantic phase
             let text = req["text"].as_str().unwrap_or("");
